@@ -50,7 +50,7 @@ func newEngine(tier string) (*Engine, error) {
 func (e *Engine) newVC(fn *ssa.Function, c *Contract, prop string) *VC {
 	vc := &VC{P: e.P, CS: e.CS, B: NewBuilder(), fn: fn, c: c, prop: prop, notes: map[string]bool{},
 		epochs: map[int]epochMerge{}, sortOf: map[string]Sort{}, typeIDs: map[string]int{}, strConsts: map[string]*Term{},
-		counters: map[string]int{}, factSeen: map[*Term]bool{}, ghostParent: map[int]int{}, factIndex: map[*Term]int{}, varMemo: map[*Term]*big.Int{}, varIDs: map[*Term]int{}}
+		counters: map[string]int{}, factSeen: map[*Term]bool{}, ghostParent: map[int]int{}, factIndex: map[*Term]int{}, varMemo: map[*Term]*big.Int{}, varIDs: map[*Term]int{}, swarDone: map[string]bool{}}
 	return vc
 }
 
@@ -575,6 +575,10 @@ func (e *Engine) discharge(obls []*Obligation) {
 			}
 			var script, qf, inst string
 			var names []string
+			if o.RawScript != "" {
+				o.Res = solve(o.Name, o.RawScript, e.timeout, e.all)
+				return
+			}
 			if !o.Cover {
 				// stage 1: quantifier-free weakening of the hypotheses
 				gen(o, func() {
